@@ -165,6 +165,13 @@ Section Codec.
     analyze_update_header (analyze_update_header h0 shape (Some a) close1) shape (Some a) close2.
 End Codec.
 
+(* every to_file_map (AnalyzeImage.to_file_map for Analyze/SPM/NIfTI, MGHImage.to_file_map)
+   calls update_header before the header is written: which branch it takes, given whether the
+   image has an affine and the value of np.allclose(image affine at save, header best affine) *)
+Inductive upd := Keep | Rewrite.
+Definition update_decision (has_affine close : bool) : upd :=
+  if has_affine then (if close then Keep else Rewrite) else Keep.
+
 (* ---------------------------------------------------------------- bytes of the header *)
 (* qform_code, sform_code (cw bytes, signed), quatern_b,c,d, qoffset_x,y,z, srow_x,y,z
    (fw bytes each) are contiguous in both NIfTI headers (checked by gen_tables) *)
